@@ -289,6 +289,296 @@ theorem pipeline_preserves (sem : Sem V) (d : Nat) (P : IrPasses) (C : PassContr
   have h7 := Refines.trans h6 (C.outputFix _)
   exact Refines.trans h7 (C.nameFix _)
 
+/-! ### partial evaluators (under the operator laws `OpLaws` and truthful annotations `InfoSound`) -/
+
+/-- The replacement is `Identity(x)` on a fresh tape. -/
+def IsIdentityOf (r : Repl) (x : Name) : Prop :=
+  ∃ o', r.newNodes = [mkNode "Identity" [some x] [o']] ∧ r.newOuts = [o'] ∧ r.inits = []
+
+theorem intAttr_some {n : Node} {k : String} {i : Int} (h : intAttr n k none = some i) :
+    (n.attrs.find? (·.1 == k)).map (·.2) = some (Attr.int i) := by
+  unfold intAttr Node.attr at h
+  split at h
+  · rename_i j hj
+    simp only [Option.some.injEq] at h
+    subst h
+    exact hj
+  · simp at h
+  · split at h <;> simp at h
+
+/-- **`cast`**: whenever the evaluator replaces `Cast<to>(x)` it replaces it by `Identity(x)`, and —
+because the annotated element type of `x` (truthful by `InfoSound`) equals `to` — the `Cast` node
+computes exactly its input (`OpLaws.cast_same`). -/
+theorem cast_identity_sound (sem : Sem V) (L : OpLaws sem) (σ : String → Int) (st st' : St) (n : Node) (r : Repl)
+    (ρ : Env V) (hI : InfoSound L σ st ρ) (hop : n.op = "Cast") (hdom : n.domain = "")
+    (hto : intAttr n "to" none ≠ some 0)
+    (hev : evCast st n = (.repl r, st')) :
+    ∃ x, getInput n 0 = some x ∧ IsIdentityOf r x ∧
+      ∀ v, ρ x = some v → sem.op n.op n.domain n.attrs [some v] = some [v] := by
+  unfold evCast at hev
+  split at hev
+  · rename_i x o hx ho
+    split at hev
+    · rename_i to hattr
+      split at hev
+      · rename_i heq
+        refine ⟨x, hx, ?_, ?_⟩
+        · simp only [replIdentity, St.freshName, Prod.mk.injEq, EvRes.repl.injEq] at hev
+          exact ⟨_, by rw [← hev.1], by rw [← hev.1], by rw [← hev.1]⟩
+        · intro v hv
+          have hinp : n.inputs[0]? = some (some x) := by
+            unfold getInput at hx
+            cases h0 : n.inputs[0]? with
+            | none => simp [h0] at hx
+            | some y => simp [h0] at hx; rw [hx]
+          cases hdt : (st.getInfo x).dtype with
+          | none =>
+            exfalso
+            simp only [elemType, hinp, hdt, Option.getD_none] at heq
+            have : to = 0 := by
+              have := beq_iff_eq.mp heq
+              simpa using this.symm
+            exact hto (by rw [hattr, this])
+          | some dt =>
+            simp only [elemType, hinp, hdt, Option.getD_some] at heq
+            have hdtto : to = (dt : Int) := (beq_iff_eq.mp heq).symm
+            rw [hop, hdom]
+            exact L.cast_same n.attrs v dt (hI.dtype x v dt hv hdt) (by rw [← hdtto]; exact intAttr_some hattr)
+      · simp at hev
+    · simp at hev
+  · simp at hev
+
+/-- **`cast_like`**: the evaluator replaces `CastLike(x, w)` (no attributes) by `Identity(x)` when the
+annotated element types agree, and by `Cast<to = type of w>(x)` otherwise; in both cases the
+replacement computes what `CastLike` computes (`castlike_is_cast`, then `cast_same`). -/
+theorem castlike_sound (sem : Sem V) (L : OpLaws sem) (σ : String → Int) (st st' : St) (n : Node) (r : Repl)
+    (ρ : Env V) (hI : InfoSound L σ st ρ) (hop : n.op = "CastLike") (hdom : n.domain = "") (hattrs : n.attrs = [])
+    (x w : Name) (hin : n.inputs = [some x, some w]) (vx vw : V) (hvx : ρ x = some vx) (hvw : ρ w = some vw)
+    (hev : evCastLike st n = (.repl r, st')) :
+    (IsIdentityOf r x ∧ sem.op n.op n.domain n.attrs [some vx, some vw] = some [vx]) ∨
+    (∃ (dt : Nat) (o' : Name), r.newNodes = [mkNode "Cast" [some x] [o'] [("to", .int dt)]] ∧ r.newOuts = [o'] ∧
+      sem.op n.op n.domain n.attrs [some vx, some vw] = sem.op "Cast" "" [("to", .int dt)] [some vx]) := by
+  unfold evCastLike at hev
+  rw [hin] at hev
+  simp only [] at hev
+  have e0 : elemType st n 0 = ((st.getInfo x).dtype).getD 0 := by simp [elemType, hin]
+  have e1 : elemType st n 1 = ((st.getInfo w).dtype).getD 0 := by simp [elemType, hin]
+  split at hev
+  · simp at hev
+  · rename_i htgt
+    cases hdw : (st.getInfo w).dtype with
+    | none => simp [e1, hdw] at htgt
+    | some dw =>
+      have hw := hI.dtype w vw dw hvw hdw
+      have hcl := L.castlike_is_cast vx vw dw hw
+      split at hev
+      · rename_i hsame
+        left
+        constructor
+        · simp only [replIdentity, St.freshName, Prod.mk.injEq, EvRes.repl.injEq] at hev
+          exact ⟨_, by rw [← hev.1], by rw [← hev.1], by rw [← hev.1]⟩
+        · rw [hop, hdom, hattrs, hcl]
+          cases hdx : (st.getInfo x).dtype with
+          | none =>
+            exfalso
+            have h2 := beq_iff_eq.mp hsame
+            rw [e0, e1, hdx, hdw] at h2
+            simp only [Option.getD_none, Option.getD_some] at h2
+            apply htgt
+            rw [e1, hdw]
+            simp only [Option.getD_some]
+            exact beq_iff_eq.mpr h2.symm
+          | some dx =>
+            have h2 := beq_iff_eq.mp hsame
+            rw [e0, e1, hdx, hdw] at h2
+            simp only [Option.getD_some] at h2
+            subst h2
+            exact L.cast_same _ vx dx (hI.dtype x vx dx hvx hdx) rfl
+      · right
+        simp only [St.freshName, Prod.mk.injEq, EvRes.repl.injEq] at hev
+        have e1' : elemType st n 1 = dw := by rw [e1, hdw]; rfl
+        rw [e1'] at hev
+        exact ⟨dw, _, by rw [← hev.1], by rw [← hev.1], by rw [hop, hdom, hattrs, hcl]⟩
+
+theorem mapM_denote_known (σ : String → Int) : ∀ (l : List Int), (l.map Dim.known).mapM (Dim.denote σ) = some l
+  | [] => rfl
+  | a :: l => by
+    simp only [List.map_cons, List.mapM_cons, Dim.denote, mapM_denote_known σ l]
+    rfl
+
+/-- **`get_shape_value` is sound** (the `shape` half of `symMap_sound`): whatever the state reports as
+the shape value of `t` — read from a small 1-D INT64 constant or from the symbolic map — is what
+`t` holds at run time, for every valuation `σ` of the symbolic dimensions. -/
+theorem shapeValue_sound (sem : Sem V) (L : OpLaws sem) (σ : String → Int) (st : St) (ρ : Env V)
+    (hI : InfoSound L σ st ρ) (t : Name) (sv : List Dim) (vt : V) (dims : List Int)
+    (h : shapeValue st (some t) = some sv) (hvt : ρ t = some vt) (hd : sv.mapM (Dim.denote σ) = some dims) :
+    L.isInts vt dims := by
+  unfold shapeValue at h
+  split at h
+  · rename_i c hc
+    split at h
+    · rename_i hlen
+      cases hints : c.ints with
+      | none => simp [hints] at h
+      | some l =>
+        simp only [hints, Option.map_some, Option.some.injEq] at h
+        subst h
+        rw [mapM_denote_known] at hd
+        simp only [Option.some.injEq] at hd
+        subst hd
+        -- the constant `c` is the constant of `t`, of dtype INT64
+        unfold numpyValue at hc
+        simp only [] at hc
+        cases hct : st.constOf t with
+        | none => simp [hct] at hc
+        | some c' =>
+          simp only [hct] at hc
+          split at hc
+          · simp at hc
+          · rename_i hdt
+            split at hc
+            · simp at hc
+            · simp only [Option.some.injEq] at hc
+              subst hc
+              have hv := hI.const t c' hct
+              rw [hvt] at hv
+              simp only [Option.some.injEq] at hv
+              subst hv
+              have hdt' : c'.dtype = DT_INT64 := by simpa using hdt
+              exact L.tensor_ints c' l hdt' (by simpa using hlen) hints
+    · simp at h
+  · split at h
+    · rename_i s hs
+      simp only [Option.some.injEq] at h
+      subst h
+      exact hI.symShape t vt s dims hvt hs hd
+    · simp at h
+
+theorem sameShape_eq {a b : List Dim} (h : sameShape a b = true) : a = b := by
+  unfold sameShape at h
+  simp only [Bool.and_eq_true, beq_iff_eq] at h
+  exact h.2
+
+/-- **`reshape`** (and, with the same proof shape, the symbolic branch of `expand`): when the evaluator
+replaces `Reshape(x, t)` it replaces it by `Identity(x)`; and since `_same_shape` made the annotated
+shape of `x` equal to the shape value of `t` dimension by dimension, for *every* binding `σ` of
+the symbolic dimensions under which that shape denotes, `x` has exactly the shape `t` asks for
+and the node is a no-op (`OpLaws.reshape_same`) — no special values `0`/`-1` can interfere. -/
+theorem reshape_identity_sound (sem : Sem V) (L : OpLaws sem) (σ : String → Int) (st st' : St) (n : Node) (r : Repl)
+    (ρ : Env V) (hI : InfoSound L σ st ρ) (hop : n.op = "Reshape") (hdom : n.domain = "")
+    (hev : evReshape st n = (.repl r, st')) :
+    ∃ x t ishape, getInput n 0 = some x ∧ getInput n 1 = some t ∧ (st.getInfo x).shape = some ishape ∧ IsIdentityOf r x ∧
+      ∀ vx vt dims, ρ x = some vx → ρ t = some vt → ishape.mapM (Dim.denote σ) = some dims →
+        sem.op n.op n.domain n.attrs [some vx, some vt] = some [vx] := by
+  unfold evReshape at hev
+  split at hev
+  · rename_i x t hx ht
+    split at hev
+    · rename_i ishape sv hishape hsv
+      split at hev
+      · rename_i hsame
+        refine ⟨x, t, ishape, hx, ht, hishape, ?_, ?_⟩
+        · simp only [replIdentity, St.freshName, Prod.mk.injEq, EvRes.repl.injEq] at hev
+          exact ⟨_, by rw [← hev.1], by rw [← hev.1], by rw [← hev.1]⟩
+        · intro vx vt dims hvx hvt hd
+          have heq := sameShape_eq hsame
+          rw [hop, hdom]
+          exact L.reshape_same n.attrs vx vt dims (hI.shape x vx ishape dims hvx hishape hd)
+            (shapeValue_sound sem L σ st ρ hI t sv vt dims hsv hvt (by rw [← heq]; exact hd))
+      · simp only [propagateShapeValue] at hev
+        split at hev <;> simp at hev
+    · simp only [propagateShapeValue] at hev
+      split at hev <;> simp at hev
+  · simp at hev
+
+/-- **`concat`, single operand**: `Concat(x)` is replaced by `Identity(x)` and computes `x`. -/
+theorem concat_single_sound (sem : Sem V) (L : OpLaws sem) (st st' : St) (n : Node) (r : Repl) (x : Name)
+    (hop : n.op = "Concat") (hdom : n.domain = "") (hin : n.inputs = [some x])
+    (hev : evConcat st n = (.repl r, st')) :
+    IsIdentityOf r x ∧ ∀ v, sem.op n.op n.domain n.attrs [some v] = some [v] := by
+  unfold evConcat at hev
+  rw [hin] at hev
+  simp only [replIdentity, St.freshName, Prod.mk.injEq, EvRes.repl.injEq] at hev
+  exact ⟨⟨_, by rw [← hev.1], by rw [← hev.1], by rw [← hev.1]⟩, fun v => by rw [hop, hdom]; exact L.concat_single _ v⟩
+
+/-- **`dropout`, no `training_mode` input** (the inference default): the evaluator always fires, the
+first new node is `Identity(x)` feeding the first replaced output, and the `Dropout` node's first
+output is its input (`OpLaws.dropout_inference`); with two declared outputs the mask is rebuilt as
+`ConstantOfShape(Shape(x), value=[True])`. -/
+theorem dropout_inference_sound (sem : Sem V) (L : OpLaws sem) (st : St) (n : Node) (x : Name) (rest : List (Option Name))
+    (hop : n.op = "Dropout") (hdom : n.domain = "") (hin : n.inputs = some x :: rest)
+    (hrest : rest = [] ∨ (∃ q, rest = [q]) ∨ (∃ q, rest = [q, none])) :
+    ∃ r st' o', evDropout st n = (.repl r, st') ∧ r.newNodes.head? = some (mkNode "Identity" [some x] [o']) ∧
+      r.newOuts.head? = some o' ∧ r.newOuts.length = (if n.outputs.length == 1 then 1 else 2) ∧
+      ∀ v args vs, sem.op n.op n.domain n.attrs (some v :: args) = some vs →
+        (args = [] ∨ (∃ a, args = [a]) ∨ (∃ a, args = [a, none])) → vs.head? = some v := by
+  have hlaw : ∀ v args vs, sem.op n.op n.domain n.attrs (some v :: args) = some vs →
+      (args = [] ∨ (∃ a, args = [a]) ∨ (∃ a, args = [a, none])) → vs.head? = some v := fun v args vs h ha => by
+    rw [hop, hdom] at h; exact L.dropout_inference n.attrs v args vs ha h
+  have hcond : (n.inputs.length ≤ 2 || (n.inputs[2]?).join == none) = true := by
+    rcases hrest with h | ⟨q, h⟩ | ⟨q, h⟩ <;> subst h <;> simp [hin]
+  unfold evDropout
+  rw [if_pos hcond]
+  simp only [hin]
+  by_cases h1 : (n.outputs.length == 1) = true
+  · rw [if_pos h1]
+    simp only [St.freshName, h1, if_true]
+    exact ⟨_, _, _, rfl, rfl, rfl, rfl, hlaw⟩
+  · rw [if_neg h1]
+    simp only [St.freshName, h1]
+    exact ⟨_, _, _, rfl, rfl, rfl, rfl, hlaw⟩
+
+/-! ### non-vacuity: the hypotheses of the theorems above are satisfiable by ordinary graphs -/
+
+/-- arithmetic over `Nat` -/
+def natSem : Sem Nat where
+  op := fun o _ _ args =>
+    match o, args with
+    | "Add", [some a, some b] => some [a + b]
+    | "Mul", [some a, some b] => some [a * b]
+    | "Identity", [some a] => some [a]
+    | _, _ => none
+  ctl := fun _ _ _ _ _ => none
+  truth := fun v => some (v != 0)
+  tensor := fun t => if t == "t1" then 1 else if t == "t2" then 2 else if t == "f" then 3 else 0
+  intsTensor := fun l => l.length
+  intTensor := fun i => i.toNat
+
+def nAdd : Node := .mk "Add" "" [some "a", some "b"] ["o"] [] []
+def nMul : Node := .mk "Mul" "" [some "x", some "o"] ["y"] [] []
+
+/-- `o = Add(a, b)` with initializers `a = 1`, `b = 2` is folded into the initializer `o = 3`
+(reference answer `f`); every hypothesis of `generic_fold_sound` holds, for every argument list and
+every enclosing environment. -/
+example (outer : Env Nat) (args : List (Option Nat)) :
+    evalGraph natSem 1 outer (Graph.mk ["x"] ([("a", "t1"), ("b", "t2")] ++ [("o", "f")]) ([] ++ [nMul]) ["y"]) args
+      = evalGraph natSem 1 outer (Graph.mk ["x"] [("a", "t1"), ("b", "t2")] ([] ++ nAdd :: [nMul]) ["y"]) args := by
+  refine generic_fold_sound natSem 0 outer ["x"] [("a", "t1"), ("b", "t2")] [] [nMul] nAdd ["y"] "o" "f"
+    [some 1, some 2] args rfl (by decide) rfl (by decide) ?_ rfl
+  intro ρ0 ρ h0 h1
+  have ha := initializer_is_constant natSem (evalGraph natSem 0) outer ["x"] [("a", "t1"), ("b", "t2")]
+    ([] ++ nAdd :: [nMul]) ["y"] [] args "a" "t1" ⟨[], [("b", "t2")], rfl, by decide⟩ (by decide) (by simp) ρ0 ρ h0 h1
+  have hb := initializer_is_constant natSem (evalGraph natSem 0) outer ["x"] [("a", "t1"), ("b", "t2")]
+    ([] ++ nAdd :: [nMul]) ["y"] [] args "b" "t2" ⟨[("a", "t1")], [], rfl, by decide⟩ (by decide) (by simp) ρ0 ρ h0 h1
+  simp only [nAdd, Node.inputs, lookupAll, lookupIn, ha, hb]
+  rfl
+
+/-- …and the folded graph really computes `x * 3` (so both sides above are defined, not both `none`). -/
+example : evalGraph natSem 1 Env.empty (Graph.mk ["x"] [("a", "t1"), ("b", "t2")] [nAdd, nMul] ["y"]) [some 5] = some [15] := by
+  decide +kernel
+
+/-- `alias_subst_sound` / `identity_establishes_alias` instance: after `o = Identity(x)` the alias holds. -/
+example (ρ ρ' : Env Nat)
+    (h : evalNode natSem (evalGraph natSem 0) ρ (.mk "Identity" "" [some "x"] ["o"] [] []) = some ρ') : ρ' "o" = ρ' "x" :=
+  identity_establishes_alias natSem (evalGraph natSem 0) ρ ρ' "x" "o" [] (fun _ => rfl) (by decide) h
+
+/-- `pipeline_preserves` instance: the identity passes satisfy the contracts. -/
+example (g : Graph) (o : OptOpts) :
+    Refines natSem 3 (optimizeIr ⟨id, fun g => (g, false), fun g => (g, false), id, id, id, id, id, id⟩ (fun g => (g, false)) o g) g :=
+  pipeline_preserves natSem 3 _ ⟨fun g => Refines.refl _ _ g, fun g => Refines.refl _ _ g, fun g => Refines.refl _ _ g,
+    fun g => Refines.refl _ _ g, fun g => Refines.refl _ _ g, fun g => Refines.refl _ _ g, fun g => Refines.refl _ _ g,
+    fun g => Refines.refl _ _ g, fun g => Refines.refl _ _ g⟩ _ (fun g => Refines.refl _ _ g) o g
+
 /-! ### a refuted clause (finding C03-D1) -/
 
 /-- A witness semantics over `Nat`: a value is the *rank* of a tensor (of the elements, for a
@@ -345,6 +635,6 @@ theorem split_to_sequence_keepdims_refuted :
   have h2 : IdentityLaw rankSem := fun _ _ => rfl
   have := h rankSem h1 h2 ctxK infoK gK [some 2]
   revert this
-  decide
+  decide +kernel
 
 end OV.Props.C03
